@@ -29,7 +29,7 @@ CLAUSES = [
      ["SCoda.Glue.extract_channels"]),
     ("TIE BY TRANSLATION, tokeniser: MultiTrackLargeVocabularyNotelikeTokeniser is re-translated statement by statement on every run (Gen/TokFns.lean, tools/py2lean_tok.py: __init__, _construct_dictionary, tokenise with its closure _apply_rest as a fuelled loop, detokenise, get_info, encode, decode; f-strings as string concatenation, dicts as association lists, floats as exact rationals) and each translation is proved equal to the hand model the theorems above are about, on rendered token strings: _construct_dictionary never raises and stores exactly the model's vocabulary sequence (rendered) after the four literal ids, dictionary_size = the model's dictionarySize, __init__ fills defaults / sorts and de-duplicates (sorted(set(...)), repair of D31) / builds the vocabulary as the model configuration says; encode / decode = the model's id maps",
      ["SCoda.TokTie.constructDictionary_all", "SCoda.TokTie.constructDictionary_eq", "SCoda.TokTie.constructDictionary_dictionary", "SCoda.TokTie.dictionarySize_eq", "SCoda.TokTie.tokInit_eq'", "SCoda.TokTie.encode_eq", "SCoda.TokTie.decode_eq", "SCoda.TokTie.tokenise_eq", "SCoda.TokTie.detokenise_eq"]),
-    ("EVERY CONSTRUCTIBLE TOKENISER (repair of finding D31, tie by translation): __init__ stores sorted(set(step_sizes)) / sorted(set(note_values)) "
+    ("EVERY TOKENISER THE TRANSLATED __init__ CONSTRUCTS (repair of finding D31, tie by translation; the link for get_velocity_bins is the dumped table for velocity_bins = 1..64 — outside that range the translated __init__ answers 'outside the subset' and these theorems are silent, while Python builds such tokenisers too: audit round 4 C2; get_velocity_bins itself is tied for every n ≠ 0 by UtilTie.getVelocityBins_int): __init__ stores sorted(set(step_sizes)) / sorted(set(note_values)) "
      "(translated statement by statement: set(l) = the distinct elements, sorted(s) = ascending; the result does not depend on the order of a set); for every "
      "argument list - repeated entries included, unsorted, or None = the defaults - the object the translated __init__ returns has strictly ascending step sizes and "
      "note values with exactly the entries of the list passed, hence duplicate free: the hypotheses steps_nodup / values_nodup of CfgWF (under which the bijection "
@@ -45,7 +45,7 @@ RULE = ("configurations: 16 flag combinations x velocity_bins x tracks 1..3 x pi
         "closure is judged on pieces drawn on each configuration's own grid plus one piece per configuration that makes tokenise use every "
         "step size that fits a bar; the whole Python dictionary is compared with the model's rendered vocabulary entry by entry; "
         "non-trivial = every configuration (distinct)")
-ASSUMPTIONS = ["models: SCoda.vocabSeq / encodeTok / decodeId / render, tied by comparing the entire dictionary"]
+ASSUMPTIONS = ["models: SCoda.vocabSeq / encodeTok / decodeId / render, tied by translation (TokTie.constructDictionary_*, encode_eq, decode_eq, Defs.decode_eq_all; velocity_bins 1..64) and by comparing the entire dictionary of every generated configuration"]
 RANGES = [(60, 64), (21, 108), (0, 127), (60, 60)]
 VALUESETS = [None, [6, 12, 24], [24, 12, 6, 16, 8, 4, 36, 18, 9, 48, 96], [24, 48, 96, 144, 192], [12, 100, 7]]   # incl. values of three digits
 
